@@ -311,11 +311,25 @@ Definition dispatch (n : Z) (args : list Z) : list Z :=
           | Some (r, us) => map (fun u => eb (posix_fold r u)) us
           | None => [-9]
           end
-  | 25 => (* tzlocal model over the spec as C library: wall queries *)
+  | 25 => (* tzlocal model over the spec as C library: [tj; tl; wall queries] *)
       match dposix args with
-      | Some (r, ws) => flat_map (fun '(w, f) => let '(off, d, nm) := tzlocal_observe_wall r w f in
-                                                 [off; d] ++ estr nm) (pairs ws)
-      | None => [-9]
+      | Some (r, tj :: tl :: ws) =>
+          flat_map (fun '(w, f) => let '(off, d, nm) := tzlocal_observe_wall r tj tl w f in
+                                   [off; d] ++ estr nm) (pairs ws)
+      | _ => [-9]
+      end
+  | 27 => (* tzlocal model, UTC -> local: [tj; tl; instants] *)
+      match dposix args with
+      | Some (r, tj :: tl :: us) =>
+          flat_map (fun u => let '(w, f, off, d, nm) := tzlocal_observe_utc r tj tl u in
+                             [w; eb f; off; d] ++ estr nm) us
+      | _ => [-9]
+      end
+  | 28 => (* CPython's time module over the spec as C library: [tj; tl] *)
+      match dposix args with
+      | Some (r, [tj; tl]) =>
+          let '(so, ao, dl, sn, dn) := tzlocal_of r tj tl in [so; ao; eb dl] ++ estr sn ++ estr dn
+      | _ => [-9]
       end
   | 30 => match dcomplist args with
           | Some (cs, us) => flat_map (fun u => eres5 (ic_observe_utc cs u)) us
